@@ -6,7 +6,7 @@ swayfmt::verif_newline_stage (hook) by exact comparison judged in Coq.  The prop
 fmt(fmt x) = fmt x, is DECIDED PER INPUT on the real formatter: every .sw file of /repo (a
 sample in the quick tier) and deterministic whitespace / comment / line-ending variants of it,
 default and Windows newline style."""
-import glob, hashlib, json, os, difflib
+import glob, hashlib, json, os, difflib, re, zlib
 from vlib import coq, rust
 from vlib.core import NCPU, REPO
 
@@ -27,8 +27,57 @@ def v_comment(s):
 def v_dedent(s): return "\n".join(l.lstrip(" \t") for l in s.split("\n"))
 def v_edges(s): return "\n\n  \n" + s.rstrip() + "\n\n\n"
 
+
+# horizontal whitespace at token boundaries INSIDE lines: around `:` `,` `=>` `=`
+_OPCH = set("<>!=+-*/%&|^:.")
+_TOK = re.compile(r"( *)(=>|==|!=|<=|>=|\+=|-=|\*=|/=|<<=|>>=|->|::|:|,|=)( *)")
+
+def _respace(line, mode, counter):
+    """mode: 'tight' | 'wide' | 'mix' (alternate per occurrence). Lines with comments, strings or
+    chars are left alone (the texts must stay lexically the same programs)."""
+    if not line.strip() or any(x in line for x in ('//', '/*', '*/', '"', "'")) or line.lstrip().startswith("#"):
+        return line
+    ind = line[:len(line) - len(line.lstrip(" \t"))]
+    body = line[len(ind):]
+    def sub(m):
+        tok = m.group(2)
+        if tok not in (":", ",", "=>", "="):
+            return m.group(0)
+        counter[0] += 1
+        md = mode if mode != "mix" else ("tight", "wide", "pre")[counter[0] % 3]
+        before = body[m.start() - 1] if m.start() > 0 else ""
+        after = body[m.end()] if m.end() < len(body) else ""
+        if md == "tight":
+            l = " " if (before in _OPCH and m.group(1)) else ""
+            r = " " if (after in _OPCH and m.group(3)) else ""
+            if m.end() == len(body): r = ""
+            if m.start() == 0: l = ""
+        elif md == "wide":
+            l = "  " if tok != "," else " "
+            r = "  " if m.end() < len(body) else ""
+            if m.start() == 0: l = ""
+        else:   # 'pre': space moved in front of the token
+            l = " "
+            r = "" if not (after in _OPCH) else " "
+            if m.end() == len(body): r = ""
+            if m.start() == 0: l = ""
+        return l + tok + r
+    return ind + _TOK.sub(sub, body)
+
+def v_space(mode, subset):
+    def f(s):
+        counter = [0]
+        out = []
+        for l in s.split("\n"):
+            pick = True if subset == "all" else (zlib.crc32(l.encode()) % 2 == 0)
+            out.append(_respace(l, mode, counter) if pick else l)
+        return "\n".join(out)
+    return f
+
 VARIANTS = [("base", lambda s: s, "aw"), ("crlf", v_crlf, "aw"), ("trailws", v_trailws, "a"), ("blank", v_blank, "a"),
-            ("comment", v_comment, "a"), ("dedent", v_dedent, "a"), ("edges", v_edges, "a")]
+            ("comment", v_comment, "a"), ("dedent", v_dedent, "a"), ("edges", v_edges, "a"),
+            ("sp-tight", v_space("tight", "all"), "a"), ("sp-wide", v_space("wide", "all"), "a"),
+            ("sp-mix", v_space("mix", "all"), "a"), ("sp-tight-half", v_space("tight", "half"), "a")]
 
 CORPUS = [  # (name, source)
     ("crcrlf-comment", "library;\n// c\r\r\nfn f() {}\n"),            # known class: unix conversion not idempotent
@@ -37,6 +86,107 @@ CORPUS = [  # (name, source)
     ("assoc-type", "library;\n\ntrait T {\n    type X;\n    fn f(self) -> Self::X;\n}\n"),
     ("empty-script", "script;\nfn main() {}\n"),
 ]
+
+
+def thresholds():
+    """The formatter's inline thresholds, read from the source under test."""
+    txt = open(os.path.join(REPO, "swayfmt", "src", "constants.rs")).read()
+    d = {m.group(1): int(m.group(2)) for m in re.finditer(r"pub const (DEFAULT_[A-Z_]+): usize = (\d+);", txt)}
+    need = ["DEFAULT_MAX_LINE_WIDTH", "DEFAULT_FN_CALL_WIDTH", "DEFAULT_STRUCTURE_LIT_WIDTH", "DEFAULT_STRUCTURE_VAR_WIDTH",
+            "DEFAULT_COLLECTION_WIDTH", "DEFAULT_CHAIN_WIDTH", "DEFAULT_SINGLE_LINE_IF_ELSE_WIDTH", "DEFAULT_SHORT_ARRAY_ELEM_WIDTH_THRESHOLD"]
+    return {k: d[k] for k in need}      # KeyError = the constants moved: the check must be adapted
+
+
+def _names(total, k):
+    """k identifiers whose lengths sum to `total` (each >= 1), distinct first letters."""
+    total = max(total, k)
+    base, extra = divmod(total, k)
+    return [chr(97 + i) * (base + (1 if i < extra else 0)) for i in range(k)]
+
+
+def _spell(fields, how):
+    """fields: list of (name, value). Spelling of `name: value, ...`."""
+    sep = {"canon": (": ", ", "), "tight": (":", ","), "wide": ("  :  ", " ,  "), "pre": (" :", " ,"), "mixed": None}[how]
+    if sep:
+        return sep[1].join(n + sep[0] + v for n, v in fields)
+    parts = []
+    for i, (n, v) in enumerate(fields):
+        parts.append(n + (":", "  :  ", " :")[i % 3] + v)
+    return ", ".join(parts[:1]) + "".join((",", " ,  ")[i % 2] + p for i, p in enumerate(parts[1:]))
+
+SPELLINGS = ["canon", "tight", "wide", "pre", "mixed"]
+
+
+def synthetic(th):
+    """Small programs whose decisive width sits within +-3 of an inline threshold, each in the
+    canonical and in oddly spaced spellings. Returns (name, source)."""
+    out = []
+    W = th["DEFAULT_MAX_LINE_WIDTH"]
+    def add(name, body, pre="struct Foo { a: u64, b: u64 }\n"):
+        out.append((name, "library;\n\n" + body + "\n"))
+    for d in range(-3, 4):
+        # --- struct patterns / struct expressions around structure_lit_width (body) and structure_field_width (field)
+        T = th["DEFAULT_STRUCTURE_LIT_WIDTH"] + d
+        for k in (2, 3):
+            # canonical body width = 3 + sum(len(field)) + 2*(k-1) + 1 ; field = name + ": " + value(1 char)
+            names = _names(T - 3 - 3 * k - 2 * (k - 1) - 1, k)
+            fields = [(n, "xyz"[i]) for i, n in enumerate(names)]
+            for how in SPELLINGS:
+                f = _spell(fields, how)
+                tag = "lit%+d-k%d-%s" % (d, k, how)
+                add("pat-let-" + tag, "fn main() {\n    let Foo { %s } = f;\n}" % f)
+                add("pat-match-" + tag, "fn main() {\n    match p {\n        Foo { %s } => x,\n        _ => y,\n    }\n}" % f)
+                add("pat-arg-" + tag, "fn g(Foo { %s }: Foo) {}" % f)
+                add("pat-nested-" + tag, "fn main() {\n    let (Foo { %s }, w) = f;\n}" % f)
+                add("expr-struct-" + tag, "fn main() {\n    let s = Foo { %s };\n}" % f)
+        T = th["DEFAULT_STRUCTURE_VAR_WIDTH"] + d
+        for how in SPELLINGS:
+            f = _spell([("a" * max(1, T - 3), "x")], how)
+            add("pat-field%+d-%s" % (d, how), "fn main() {\n    let Foo { %s } = f;\n}" % f)
+            add("expr-field%+d-%s" % (d, how), "fn main() {\n    let s = Foo { %s };\n}" % f)
+        # --- fn call arguments around fn_call_width, generic argument lists
+        T = th["DEFAULT_FN_CALL_WIDTH"] + d
+        k = 6
+        args = _names(T - 2 * (k - 1), k)
+        for how, sepc in (("canon", ", "), ("tight", ","), ("wide", " ,  ")):
+            add("call%+d-%s" % (d, how), "fn main() {\n    let r = foo(%s);\n}" % sepc.join(args))
+            add("generic%+d-%s" % (d, how), "fn main() {\n    let r = foo::<%s>(x);\n}" % sepc.join(a.upper() for a in args))
+            add("tygeneric%+d-%s" % (d, how), "fn g(x: Bar<%s>) {}" % sepc.join(a.upper() for a in args))
+        # --- collections around collection_width / short arrays
+        T = th["DEFAULT_COLLECTION_WIDTH"] + d
+        k = 8
+        els = _names(T - 2 * (k - 1) - 2, k)
+        for how, sepc in (("canon", ", "), ("tight", ","), ("wide", " ,  ")):
+            add("tuple%+d-%s" % (d, how), "fn main() {\n    let t = (%s);\n}" % sepc.join(els))
+            add("array%+d-%s" % (d, how), "fn main() {\n    let t = [%s];\n}" % sepc.join(els))
+        T = th["DEFAULT_SHORT_ARRAY_ELEM_WIDTH_THRESHOLD"] + d
+        for how, sepc in (("canon", ", "), ("tight", ","), ("wide", " ,  ")):
+            add("shortarr%+d-%s" % (d, how), "fn main() {\n    let t = [%s];\n}" % sepc.join(["1" * max(1, T)] * 12))
+        # --- if/else on one line around single_line_if_else_max_width
+        T = th["DEFAULT_SINGLE_LINE_IF_ELSE_WIDTH"] + d
+        n = max(2, T - len("if c {  } else {  }"))
+        a, b = _names(n, 2)
+        for how, eq in (("canon", " = "), ("tight", "="), ("wide", "  =  ")):
+            add("ifelse%+d-%s" % (d, how), "fn main() {\n    let v%sif c { %s } else { %s };\n}" % (eq, a, b))
+        # --- method chains around chain_width
+        T = th["DEFAULT_CHAIN_WIDTH"] + d
+        k = 4
+        ms = _names(max(k, T - 1 - 3 * k), k)
+        add("chain%+d" % d, "fn main() {\n    let v = x.%s;\n}" % ".".join(m + "()" for m in ms))
+        # --- long && / || chains, where-clauses and fn signatures around max_width
+        for how, sp in (("canon", " "), ("tight", ""), ("wide", "  ")):
+            pre = "    let c%s=%s" % (sp, sp)
+            k = 6
+            ops = _names(W + d - len("    let c = ;") - 4 * (k - 1), k)
+            add("andchain%+d-%s" % (d, how), "fn main() {\n%s%s;\n}" % (pre, " && ".join(ops)))
+            add("orchain-call%+d-%s" % (d, how), "fn main() {\n    assert(%s);\n}" % (" ||" + sp).join(_names(th["DEFAULT_FN_CALL_WIDTH"] + d - 4 * (k - 1), k)))
+            col, com = (":" + sp if how != "canon" else ": "), ("," + sp if how != "canon" else ", ")
+            bounds = _names(W + d - len("fn g<T, U>(x: T, y: U) where T: , U:  {}") - 3, 3)
+            bb = [b.capitalize() for b in bounds]
+            add("where%+d-%s" % (d, how), "fn g<T%sU>(x%sT%sy%sU) where T%s%s + %s%sU%s%s {}" % (com, col, com, col, col, bb[0], bb[1], com, col, bb[2]))
+            params = _names(W + d - len("fn g() {}") - 7 * 5 + 2, 5)
+            add("fnsig%+d-%s" % (d, how), "fn g(%s) {}" % com.join(p + col + "u64" for p in params))
+    return out
 
 
 def scal(s):
@@ -106,10 +256,17 @@ def run(ctx):
         if ctx.quick and len(srcs) > 400:
             srcs = ctx.rng.sample(srcs, 400)
         inputs = [(name, "corpus", st, s) for name, s in CORPUS for st in "au"]
-        for f, s in srcs:
+        th = thresholds()
+        syn = synthetic(th)
+        if ctx.quick and len(syn) > 700:
+            syn = ctx.rng.sample(syn, 700)
+        inputs += [("synthetic/" + name, "threshold-edge", "a", s) for name, s in syn]
+        for k, (f, s) in enumerate(srcs):
             for vname, fn, styles in VARIANTS:
                 v = fn(s)
                 for st in styles:
+                    if st == "w" and ctx.quick and k % 4 != 0:
+                        continue        # quick tier: the (known, systematic) Windows-style class on a quarter of the sample
                     inputs.append((f, vname, st, v))
     rc, lines = run_fmt(binp, [(st, s) for _, _, st, s in inputs])
     if rc != 0 or len(lines) != len(inputs):
@@ -216,7 +373,8 @@ def run(ctx):
         "files_in_repo_distinct": total_files, "files_used": len(srcs) if not ctx.replay else 0, "applicable": applicable,
         "results": stats, "first_format_panics": stats.get("panic1", 0), "non_fixpoints": len(bad),
         "known_class_hits": sorted(ctx.known_hits), "stage_correspondence": corr, "outputs_without_final_newline": no_final_nl,
-        "variants": [v[0] + ":" + v[2] for v in VARIANTS],
+        "variants": [v[0] + ":" + v[2] for v in VARIANTS], "thresholds_read_from_source": (thresholds() if not ctx.replay else {}),
+        "synthetic_threshold_edge_inputs": sum(1 for i in inputs if i[1] == "threshold-edge"),
     })
     ctx.assumptions += ["idempotence of the printers is observed per input, not proved",
                         "stage model = code established by exact comparison on generated texts only (hook swayfmt::verif_newline_stage)",
